@@ -129,7 +129,9 @@ func QuoteName(key string, q Notation, mode int) string {
 			sb.WriteString(`\r`)
 		case c == '\t':
 			sb.WriteString(`\t`)
-		case c < 0x20 || c == 0x7f:
+		case c < 0x20 || (c == 0x7f && mode == 2):
+			// U+007F is legal unescaped in a JSON string (and encoding/json prints it raw): modes 0 writes
+			// it as itself, mode 2 escaped
 			writeU(&sb, c)
 		default:
 			sb.WriteRune(c)
